@@ -45,6 +45,7 @@ type zz17Host struct {
 	opens    int
 	failOpen, failWrite, shortWrite bool
 	stalled  bool          // the remote side never closes its end of a request stream
+	silentTo map[peer.ID]bool // peers that read a request and never answer
 	never    chan struct{}
 }
 
@@ -84,6 +85,9 @@ func (s *zz17Stream) Write(p []byte) (int, error) {
 	}
 	if s.h.shortWrite {
 		return len(p) - 1, nil
+	}
+	if s.h.silentTo[s.to] {
+		return len(p), nil
 	}
 	if s.h.inWrite {
 		zz17Respond(s.h.mp, req, s.to)
@@ -474,5 +478,54 @@ func zzH_C17_request_ids_unique(t *zzT) {
 	a := newRequestMessage(zzPeerID(1), "getLastBlock", data)
 	b := newRequestMessage(zzPeerID(1), "getLastBlock", append([]byte{}, data...))
 	t.Assert(a.ID != b.ID, "two requests with the same sender, procedure, payload and second carry different IDs")
+	t.Reach("end")
+}
+
+// ---- Broadcast: the same request to every connected peer ----
+
+type zz17Net struct {
+	network.Network
+	peers []peer.ID
+}
+
+func (n *zz17Net) Peers() []peer.ID { return n.peers }
+
+type zz17BHost struct {
+	*zz17Host
+	net *zz17Net
+}
+
+func (h *zz17BHost) Network() network.Network { return h.net }
+
+// C17 "every request ends … with … an error; no combination of concurrent requests, timeouts … can leave the
+// request/response layer blocked": MessageProtocol.Broadcast towards 2..3 connected peers of which any subset
+// never answers (stalled). Broadcast returns — with an error iff some peer did not answer —, every goroutine it
+// started has ended, and no pending entry is left. (seed C17-8: a concurrent Broadcast whose workers report
+// into a one-slot error channel that is read only after all of them finished: the second failing worker blocks.)
+//
+//zz:opt loop=4000 sched=1 join=1 blockfree=0
+//zz:stub time.Now zzStubNow
+//zz:stub time.After zz17After
+//zz:stub github.com/google/uuid.New zz17UUID
+//zz:stub github.com/libp2p/go-libp2p/core/network.WithUseTransient zzStubWithUseTransient
+func zzH_C17_broadcast_returns(t *zzT) {
+	mp, h := zz17New(t, true, 2*time.Millisecond) // peers that answer do so at once, inside Write
+	n := t.Range("peers", 2, 3)
+	silent := make(map[peer.ID]bool)
+	anySilent := false
+	net := &zz17Net{}
+	for i := 0; i < n; i++ {
+		id := peer.ID([]byte{0x12, 0x20, byte(i)})
+		net.peers = append(net.peers, id)
+		if t.Bool(t.Name("silent", i)) {
+			silent[id] = true
+			anySilent = true
+		}
+	}
+	h.silentTo = silent
+	mp.peer.host = &zz17BHost{zz17Host: h, net: net}
+	err := mp.Broadcast(context.Background(), "k", []byte{t.U8("payload")})
+	t.Assert((err != nil) == anySilent, "Broadcast reports an error iff some connected peer did not answer")
+	t.Assert(len(mp.resCh) == 0, "no pending entry is leaked")
 	t.Reach("end")
 }
